@@ -256,9 +256,34 @@ static enum eventloop_return accept_common(struct io_event *ev, void (*peer_func
 		socklen_t addrlen = sizeof(addr);
 		int peer_fd = accept(ev->sock, (struct sockaddr *)&addr, &addrlen);
 		if (peer_fd == -1) {
-			if ((errno == EAGAIN) || (errno == EWOULDBLOCK)) {
+			switch (errno) {
+			case EAGAIN:
+#if EAGAIN != EWOULDBLOCK
+			case EWOULDBLOCK:
+#endif
 				return EL_CONTINUE_LOOP;
-			} else {
+
+			case ECONNABORTED:
+			case EINTR:
+			case EPROTO:
+			case ENETDOWN:
+			case ENOPROTOOPT:
+			case EHOSTDOWN:
+			case ENONET:
+			case EHOSTUNREACH:
+			case EOPNOTSUPP:
+			case ENETUNREACH:
+				/* This connection attempt is gone, the listening socket is fine (see accept(2)). */
+				continue;
+
+			case EMFILE:
+			case ENFILE:
+			case ENOBUFS:
+			case ENOMEM:
+				log_err("Could not accept connection: '%s'\n", strerror(errno));
+				return EL_CONTINUE_LOOP;
+
+			default:
 				return EL_ABORT_LOOP;
 			}
 		} else {
